@@ -706,3 +706,9 @@ end LA.Auparse
 /-- Outside `init`, no function of package auparse writes a package-level variable, hands the address of one to a function or calls a
 sync/atomic method on one (regenerated list, see LA.Proofs.StateFacts): the parser is a function of its argument. -/
 theorem C12_parser_keeps_nothing_between_calls : LA.StateFacts.ofPkg "auparse" = [] := by decide
+
+/-- … and reads nothing of the process it runs in: package auparse calls no function of os, os/user, os/exec, net,
+runtime, math/rand or crypto/rand, no time.Now / Since / Until, no file-system function of path/filepath and no
+process query of syscall (`envReads`, regenerated with go/types on every run). What the parser answers is a function
+of the bytes it is given — not of the machine's time zone, locale, user database, number of processors or files. -/
+theorem C12_parser_reads_no_environment : LA.StateFacts.envOf "auparse" = [] := by decide
